@@ -12,7 +12,8 @@ import numpy as np
 import pandas as pd
 import z3
 
-from .core import SymBool, SymReal, Unsupported, ctx, s_not, _EMPTY, _str_to_frac, _val_to_str
+from .core import (SymBool, SymReal, Unsupported, ReplayIncomplete, ctx, s_not, _EMPTY, _str_to_frac,
+                   _val_to_str)
 
 EPOCH = datetime(2000, 1, 1)
 US = 1_000_000
@@ -434,6 +435,8 @@ class SymTime:
 def sym_time(c, name, lo=LO_DEFAULT, hi=HI_DEFAULT):
     """Named datetime input with lo <= t < hi.  Concrete mode: a real datetime."""
     if c.mode == "conc":
+        if name not in c.values:
+            raise ReplayIncomplete(name)
         return us_to_dt(int(_str_to_frac(str(c.values[name]))))
     v = c._declare(name, "time")
     t = SymTime(v, frozenset([name]), label=name)
@@ -449,6 +452,8 @@ def sym_time_real(c, name, lo=LO_DEFAULT, hi=HI_DEFAULT):
     formulas are polynomial in elapsed time (interest), which keeps their slices in QF_NRA.
     ``.date()`` is not available on these.  Concrete mode rounds to the microsecond."""
     if c.mode == "conc":
+        if name not in c.values:
+            raise ReplayIncomplete(name)
         return us_to_dt(int(round(float(_str_to_frac(str(c.values[name]))))))
     v = c._declare(name, "real")
     t = SymTime(v, frozenset([name]), label=name)
@@ -463,6 +468,8 @@ def sym_latency(c, name, hi_seconds=86400 * 400):
     """A latency in seconds: an integer number of microseconds >= 0 (w.l.o.g.: every quantity
     it is compared with is itself a whole number of microseconds)."""
     if c.mode == "conc":
+        if name not in c.values:
+            raise ReplayIncomplete(name)
         return int(_str_to_frac(str(c.values[name]))) / US
     v = c._declare(name, "time")
     x = SymSeconds(v, frozenset([name]))
@@ -473,6 +480,8 @@ def sym_latency(c, name, hi_seconds=86400 * 400):
 def sym_seconds(c, name, lo_us=None, hi_us=None):
     """Named timedelta input (integer microseconds)."""
     if c.mode == "conc":
+        if name not in c.values:
+            raise ReplayIncomplete(name)
         return timedelta(microseconds=int(_str_to_frac(str(c.values[name]))))
     v = c._declare(name, "time")
     d = SymDelta(v, frozenset([name]))
